@@ -601,141 +601,141 @@ package trend
 // what each New* function returns, read off its literal: fresh, pairwise separate sub-objects, fields equal to the
 // arguments / constants they are initialised with (transitively through nested constructors); proved, not assumed
 //@ func NewApo
-//@ ensures[C01] "fresh-and-separate-objects" fresh(result)
-//@ ensures[C01] "configured-as-given" result.FastPeriod == 14 && result.FastSmoothing == 2 && result.SlowPeriod == 30 && result.SlowSmoothing == 2
+//@ ensures[C01,C02,C04,C15] "fresh-and-separate-objects" fresh(result)
+//@ ensures[C01,C02,C04,C15] "configured-as-given" result.FastPeriod == 14 && result.FastSmoothing == 2 && result.SlowPeriod == 30 && result.SlowSmoothing == 2
 
 //@ func NewAroon
-//@ ensures[C01] "fresh-and-separate-objects" fresh(result)
-//@ ensures[C01] "configured-as-given" result.Period == 25
+//@ ensures[C01,C02,C04,C15] "fresh-and-separate-objects" fresh(result)
+//@ ensures[C01,C02,C04,C15] "configured-as-given" result.Period == 25
 
 //@ func NewBop
-//@ ensures[C01] "fresh-and-separate-objects" fresh(result)
+//@ ensures[C01,C02,C04,C15] "fresh-and-separate-objects" fresh(result)
 
 //@ func NewCci
-//@ ensures[C01] "fresh-and-separate-objects" fresh(result)
-//@ ensures[C01] "configured-as-given" result.Period == 20
+//@ ensures[C01,C02,C04,C15] "fresh-and-separate-objects" fresh(result)
+//@ ensures[C01,C02,C04,C15] "configured-as-given" result.Period == 20
 
 //@ func NewCciWithPeriod
-//@ ensures[C01] "fresh-and-separate-objects" fresh(result)
-//@ ensures[C01] "configured-as-given" result.Period == period
+//@ ensures[C01,C02,C04,C15] "fresh-and-separate-objects" fresh(result)
+//@ ensures[C01,C02,C04,C15] "configured-as-given" result.Period == period
 
 //@ func NewDema
-//@ ensures[C01] "fresh-and-separate-objects" fresh(result) && fresh(result.Ema1) && fresh(result.Ema2) && distinct(result.Ema1, result.Ema2)
-//@ ensures[C01] "configured-as-given" result.Ema1.Period == 20 && result.Ema1.Smoothing == 2 && result.Ema2.Period == 20 && result.Ema2.Smoothing == 2
+//@ ensures[C01,C02,C04,C15] "fresh-and-separate-objects" fresh(result) && fresh(result.Ema1) && fresh(result.Ema2) && distinct(result.Ema1, result.Ema2)
+//@ ensures[C01,C02,C04,C15] "configured-as-given" result.Ema1.Period == 20 && result.Ema1.Smoothing == 2 && result.Ema2.Period == 20 && result.Ema2.Smoothing == 2
 
 //@ func NewEma
-//@ ensures[C01] "fresh-and-separate-objects" fresh(result)
-//@ ensures[C01] "configured-as-given" result.Period == 20 && result.Smoothing == 2
+//@ ensures[C01,C02,C04,C15] "fresh-and-separate-objects" fresh(result)
+//@ ensures[C01,C02,C04,C15] "configured-as-given" result.Period == 20 && result.Smoothing == 2
 
 //@ func NewEmaWithPeriod
-//@ ensures[C01] "fresh-and-separate-objects" fresh(result)
-//@ ensures[C01] "configured-as-given" result.Period == period && result.Smoothing == 2
+//@ ensures[C01,C02,C04,C15] "fresh-and-separate-objects" fresh(result)
+//@ ensures[C01,C02,C04,C15] "configured-as-given" result.Period == period && result.Smoothing == 2
 
 //@ func NewHmaWithPeriod
-//@ ensures[C01] "fresh-and-separate-objects" fresh(result) && fresh(result.wma1) && fresh(result.wma2) && fresh(result.wma3) && distinct(result.wma1, result.wma2, result.wma3)
-//@ ensures[C01] "configured-as-given" result.wma2.Period == period
+//@ ensures[C01,C02,C04,C15] "fresh-and-separate-objects" fresh(result) && fresh(result.wma1) && fresh(result.wma2) && fresh(result.wma3) && distinct(result.wma1, result.wma2, result.wma3)
+//@ ensures[C01,C02,C04,C15] "configured-as-given" result.wma1.Period == trunc(round((real(period) / 2))) && result.wma2.Period == period && result.wma3.Period == trunc(round(sqrt(real(period))))
 
 //@ func NewKama
-//@ ensures[C01] "fresh-and-separate-objects" fresh(result)
-//@ ensures[C01] "configured-as-given" result.ErPeriod == 10 && result.FastScPeriod == 2 && result.SlowScPeriod == 30
+//@ ensures[C01,C02,C04,C15] "fresh-and-separate-objects" fresh(result)
+//@ ensures[C01,C02,C04,C15] "configured-as-given" result.ErPeriod == 10 && result.FastScPeriod == 2 && result.SlowScPeriod == 30
 
 //@ func NewKamaWith
-//@ ensures[C01] "fresh-and-separate-objects" fresh(result)
-//@ ensures[C01] "configured-as-given" result.ErPeriod == erPeriod && result.FastScPeriod == fastScPeriod && result.SlowScPeriod == slowScPeriod
+//@ ensures[C01,C02,C04,C15] "fresh-and-separate-objects" fresh(result)
+//@ ensures[C01,C02,C04,C15] "configured-as-given" result.ErPeriod == erPeriod && result.FastScPeriod == fastScPeriod && result.SlowScPeriod == slowScPeriod
 
 //@ func NewKdj
-//@ ensures[C01] "fresh-and-separate-objects" fresh(result) && fresh(result.MovingMax) && fresh(result.MovingMin) && fresh(result.Sma1) && fresh(result.Sma2) && distinct(result.Sma1, result.Sma2)
-//@ ensures[C01] "configured-as-given" result.MovingMax.Period == 9 && result.MovingMin.Period == 9 && result.Sma1.Period == 3 && result.Sma2.Period == 3
+//@ ensures[C01,C02,C04,C15] "fresh-and-separate-objects" fresh(result) && fresh(result.MovingMax) && fresh(result.MovingMin) && fresh(result.Sma1) && fresh(result.Sma2) && distinct(result.Sma1, result.Sma2)
+//@ ensures[C01,C02,C04,C15] "configured-as-given" result.MovingMax.Period == 9 && result.MovingMin.Period == 9 && result.Sma1.Period == 3 && result.Sma2.Period == 3
 
 //@ func NewMacd
-//@ ensures[C01] "fresh-and-separate-objects" fresh(result) && fresh(result.Ema1) && fresh(result.Ema2) && fresh(result.Ema3) && distinct(result.Ema1, result.Ema2, result.Ema3)
-//@ ensures[C01] "configured-as-given" result.Ema1.Period == 12 && result.Ema1.Smoothing == 2 && result.Ema2.Period == 26 && result.Ema2.Smoothing == 2 && result.Ema3.Period == 9 && result.Ema3.Smoothing == 2
+//@ ensures[C01,C02,C04,C15] "fresh-and-separate-objects" fresh(result) && fresh(result.Ema1) && fresh(result.Ema2) && fresh(result.Ema3) && distinct(result.Ema1, result.Ema2, result.Ema3)
+//@ ensures[C01,C02,C04,C15] "configured-as-given" result.Ema1.Period == 12 && result.Ema1.Smoothing == 2 && result.Ema2.Period == 26 && result.Ema2.Smoothing == 2 && result.Ema3.Period == 9 && result.Ema3.Smoothing == 2
 
 //@ func NewMacdWithPeriod
-//@ ensures[C01] "fresh-and-separate-objects" fresh(result) && fresh(result.Ema1) && fresh(result.Ema2) && fresh(result.Ema3) && distinct(result.Ema1, result.Ema2, result.Ema3)
-//@ ensures[C01] "configured-as-given" result.Ema1.Period == period1 && result.Ema1.Smoothing == 2 && result.Ema2.Period == period2 && result.Ema2.Smoothing == 2 && result.Ema3.Period == period3 && result.Ema3.Smoothing == 2
+//@ ensures[C01,C02,C04,C15] "fresh-and-separate-objects" fresh(result) && fresh(result.Ema1) && fresh(result.Ema2) && fresh(result.Ema3) && distinct(result.Ema1, result.Ema2, result.Ema3)
+//@ ensures[C01,C02,C04,C15] "configured-as-given" result.Ema1.Period == period1 && result.Ema1.Smoothing == 2 && result.Ema2.Period == period2 && result.Ema2.Smoothing == 2 && result.Ema3.Period == period3 && result.Ema3.Smoothing == 2
 
 //@ func NewMassIndex
-//@ ensures[C01] "fresh-and-separate-objects" fresh(result) && fresh(result.Ema1) && fresh(result.Ema2) && fresh(result.MovingSum) && distinct(result.Ema1, result.Ema2)
-//@ ensures[C01] "configured-as-given" result.Ema1.Period == 9 && result.Ema1.Smoothing == 2 && result.Ema2.Period == 9 && result.Ema2.Smoothing == 2 && result.MovingSum.Period == 25
+//@ ensures[C01,C02,C04,C15] "fresh-and-separate-objects" fresh(result) && fresh(result.Ema1) && fresh(result.Ema2) && fresh(result.MovingSum) && distinct(result.Ema1, result.Ema2)
+//@ ensures[C01,C02,C04,C15] "configured-as-given" result.Ema1.Period == 9 && result.Ema1.Smoothing == 2 && result.Ema2.Period == 9 && result.Ema2.Smoothing == 2 && result.MovingSum.Period == 25
 
 //@ func NewMlrWithPeriod
-//@ ensures[C01] "fresh-and-separate-objects" fresh(result) && fresh(result.Mls) && fresh(result.Mls.Sum)
-//@ ensures[C01] "configured-as-given" result.Mls.Sum.Period == period
+//@ ensures[C01,C02,C04,C15] "fresh-and-separate-objects" fresh(result) && fresh(result.Mls) && fresh(result.Mls.Sum)
+//@ ensures[C01,C02,C04,C15] "configured-as-given" result.Mls.Sum.Period == period
 
 //@ func NewMlsWithPeriod
-//@ ensures[C01] "fresh-and-separate-objects" fresh(result) && fresh(result.Sum)
-//@ ensures[C01] "configured-as-given" result.Sum.Period == period
+//@ ensures[C01,C02,C04,C15] "fresh-and-separate-objects" fresh(result) && fresh(result.Sum)
+//@ ensures[C01,C02,C04,C15] "configured-as-given" result.Sum.Period == period
 
 //@ func NewMovingMax
-//@ ensures[C01] "fresh-and-separate-objects" fresh(result)
+//@ ensures[C01,C02,C04,C15] "fresh-and-separate-objects" fresh(result)
 
 //@ func NewMovingMaxWithPeriod
-//@ ensures[C01] "fresh-and-separate-objects" fresh(result)
-//@ ensures[C01] "configured-as-given" result.Period == period
+//@ ensures[C01,C02,C04,C15] "fresh-and-separate-objects" fresh(result)
+//@ ensures[C01,C02,C04,C15] "configured-as-given" result.Period == period
 
 //@ func NewMovingMin
-//@ ensures[C01] "fresh-and-separate-objects" fresh(result)
+//@ ensures[C01,C02,C04,C15] "fresh-and-separate-objects" fresh(result)
 
 //@ func NewMovingMinWithPeriod
-//@ ensures[C01] "fresh-and-separate-objects" fresh(result)
-//@ ensures[C01] "configured-as-given" result.Period == period
+//@ ensures[C01,C02,C04,C15] "fresh-and-separate-objects" fresh(result)
+//@ ensures[C01,C02,C04,C15] "configured-as-given" result.Period == period
 
 //@ func NewMovingSum
-//@ ensures[C01] "fresh-and-separate-objects" fresh(result)
-//@ ensures[C01] "configured-as-given" result.Period == 1
+//@ ensures[C01,C02,C04,C15] "fresh-and-separate-objects" fresh(result)
+//@ ensures[C01,C02,C04,C15] "configured-as-given" result.Period == 1
 
 //@ func NewMovingSumWithPeriod
-//@ ensures[C01] "fresh-and-separate-objects" fresh(result)
-//@ ensures[C01] "configured-as-given" result.Period == period
+//@ ensures[C01,C02,C04,C15] "fresh-and-separate-objects" fresh(result)
+//@ ensures[C01,C02,C04,C15] "configured-as-given" result.Period == period
 
 //@ func NewRma
-//@ ensures[C01] "fresh-and-separate-objects" fresh(result)
-//@ ensures[C01] "configured-as-given" result.Period == 20
+//@ ensures[C01,C02,C04,C15] "fresh-and-separate-objects" fresh(result)
+//@ ensures[C01,C02,C04,C15] "configured-as-given" result.Period == 20
 
 //@ func NewRmaWithPeriod
-//@ ensures[C01] "fresh-and-separate-objects" fresh(result)
-//@ ensures[C01] "configured-as-given" result.Period == period
+//@ ensures[C01,C02,C04,C15] "fresh-and-separate-objects" fresh(result)
+//@ ensures[C01,C02,C04,C15] "configured-as-given" result.Period == period
 
 //@ func NewSma
-//@ ensures[C01] "fresh-and-separate-objects" fresh(result)
-//@ ensures[C01] "configured-as-given" result.Period == 50
+//@ ensures[C01,C02,C04,C15] "fresh-and-separate-objects" fresh(result)
+//@ ensures[C01,C02,C04,C15] "configured-as-given" result.Period == 50
 
 //@ func NewSmaWithPeriod
-//@ ensures[C01] "fresh-and-separate-objects" fresh(result)
-//@ ensures[C01] "configured-as-given" result.Period == period
+//@ ensures[C01,C02,C04,C15] "fresh-and-separate-objects" fresh(result)
+//@ ensures[C01,C02,C04,C15] "configured-as-given" result.Period == period
 
 //@ func NewSmma
-//@ ensures[C01] "fresh-and-separate-objects" fresh(result)
-//@ ensures[C01] "configured-as-given" result.Period == 7
+//@ ensures[C01,C02,C04,C15] "fresh-and-separate-objects" fresh(result)
+//@ ensures[C01,C02,C04,C15] "configured-as-given" result.Period == 7
 
 //@ func NewSmmaWithPeriod
-//@ ensures[C01] "fresh-and-separate-objects" fresh(result)
-//@ ensures[C01] "configured-as-given" result.Period == period
+//@ ensures[C01,C02,C04,C15] "fresh-and-separate-objects" fresh(result)
+//@ ensures[C01,C02,C04,C15] "configured-as-given" result.Period == period
 
 //@ func NewTema
-//@ ensures[C01] "fresh-and-separate-objects" fresh(result) && fresh(result.Ema1) && fresh(result.Ema2) && fresh(result.Ema3) && distinct(result.Ema1, result.Ema2, result.Ema3)
-//@ ensures[C01] "configured-as-given" result.Ema1.Period == 20 && result.Ema1.Smoothing == 2 && result.Ema2.Period == 20 && result.Ema2.Smoothing == 2 && result.Ema3.Period == 20 && result.Ema3.Smoothing == 2
+//@ ensures[C01,C02,C04,C15] "fresh-and-separate-objects" fresh(result) && fresh(result.Ema1) && fresh(result.Ema2) && fresh(result.Ema3) && distinct(result.Ema1, result.Ema2, result.Ema3)
+//@ ensures[C01,C02,C04,C15] "configured-as-given" result.Ema1.Period == 20 && result.Ema1.Smoothing == 2 && result.Ema2.Period == 20 && result.Ema2.Smoothing == 2 && result.Ema3.Period == 20 && result.Ema3.Smoothing == 2
 
 //@ func NewTrima
-//@ ensures[C01] "fresh-and-separate-objects" fresh(result)
-//@ ensures[C01] "configured-as-given" result.Period == 15
+//@ ensures[C01,C02,C04,C15] "fresh-and-separate-objects" fresh(result)
+//@ ensures[C01,C02,C04,C15] "configured-as-given" result.Period == 15
 
 //@ func NewTrix
-//@ ensures[C01] "fresh-and-separate-objects" fresh(result)
-//@ ensures[C01] "configured-as-given" result.Period == 15
+//@ ensures[C01,C02,C04,C15] "fresh-and-separate-objects" fresh(result)
+//@ ensures[C01,C02,C04,C15] "configured-as-given" result.Period == 15
 
 //@ func NewTypicalPrice
-//@ ensures[C01] "fresh-and-separate-objects" fresh(result)
+//@ ensures[C01,C02,C04,C15] "fresh-and-separate-objects" fresh(result)
 
 //@ func NewVwma
-//@ ensures[C01] "fresh-and-separate-objects" fresh(result)
-//@ ensures[C01] "configured-as-given" result.Period == 20
+//@ ensures[C01,C02,C04,C15] "fresh-and-separate-objects" fresh(result)
+//@ ensures[C01,C02,C04,C15] "configured-as-given" result.Period == 20
 
 //@ func NewWeightedClose
-//@ ensures[C01] "fresh-and-separate-objects" fresh(result)
+//@ ensures[C01,C02,C04,C15] "fresh-and-separate-objects" fresh(result)
 
 //@ func NewWmaWith
-//@ ensures[C01] "fresh-and-separate-objects" fresh(result)
-//@ ensures[C01] "configured-as-given" result.Period == period
+//@ ensures[C01,C02,C04,C15] "fresh-and-separate-objects" fresh(result)
+//@ ensures[C01,C02,C04,C15] "configured-as-given" result.Period == period
 // ---- end of generated constructor contracts ----
